@@ -596,4 +596,15 @@ def reach (h : Heap) : Ref → List Loc
     | _ => [])
   | _ => []
 
+/-- REACHABILITY (transitive): the object a reference points to, and every object stored in an entry of a
+reachable dict-like object (Triangle → cells → Cell → values → arrays, at any depth) -/
+inductive Reach (h : Heap) : Ref → Loc → Prop where
+  | self (l : Loc) : Reach h (.loc l) l
+  | step {r : Ref} {l l' : Loc} {es : List (String × Ref)} {k : String} :
+      Reach h r l → h.get l = some (.dict es) → (k, Ref.loc l') ∈ es → Reach h r l'
+
+/-- a heap without dangling references: every location stored in an object exists -/
+def Heap.Closed (h : Heap) : Prop :=
+  ∀ l es k l', h.get l = some (.dict es) → (k, Ref.loc l') ∈ es → l' < h.size
+
 end Bermuda.Heap
